@@ -87,3 +87,11 @@ package ecs
 //@   ensures  kept: forall k int :: 0 <= k && k < old(len(a.freeTables)) ==> a.freeTables[k] == old(a.freeTables[k])
 //@   ensures  empty: len(a.tables.tables) == 0
 //@   ensures  separate: __disjoint(a.freeTables, a.tables.tables)
+
+// archetype.Reset (C16): thin contract. What it may change is inferred from its body (table
+// lengths and free flags, the archetype's table lists); storage.Reset relies on exactly that
+// frame: nothing of the entity pool, the lock, the observers or the filter cache is touched.
+//@ func (*archetype).Reset
+//@   serves C16
+//@   requires a.archetypeData != nil && storage != nil
+//@   loop 1 invariant frame: len(storage.tables) == old(len(storage.tables))
